@@ -118,7 +118,7 @@ func workerInit() {
 var baselines = map[string]uint64{}
 
 func baseline(dec string) uint64 {
-	if !strings.HasPrefix(dec, "hs:") && !strings.HasPrefix(dec, "hr:") && !strings.HasPrefix(dec, "hq:") {
+	if !isConn(dec) {
 		return 0
 	}
 	if b, ok := baselines[dec[3:]]; ok {
@@ -159,6 +159,35 @@ func baseline(dec string) uint64 {
 func devA() device.ID { return devID(0x41) }
 func devB() device.ID { return devID(0x61) }
 func devC() device.ID { return devID(0x51) }
+func devQ() device.ID { return devID(0x81) }
+
+// forwardedHello is the Multi container a registered device A sends to forward the hello of Q
+// (Listener.talkSub registers Q).
+func forwardedHello() *com.Packet {
+	n := &com.Packet{ID: 0, Flags: com.FlagMulti | com.FlagMultiDevice, Device: devA()}
+	c2.VerifC04Hello(devQ(), false).MarshalStream(n)
+	n.Flags.SetLen(1)
+	n.Flags &^= com.FlagFrag
+	return n
+}
+
+// registerForwarded: A registers directly, Q through A's container.
+func registerForwarded(l *c2.Listener, p *profile) string {
+	h, err := c2.VerifC04Encode(p.w, p.t, c2.VerifC04Hello(devA(), false))
+	if err != nil {
+		return "setup:cannot encode the hello: " + err.Error()
+	}
+	serveOne(l, h)
+	f, err := c2.VerifC04Encode(p.w, p.t, forwardedHello())
+	if err != nil {
+		return "setup:cannot encode the forwarded hello: " + err.Error()
+	}
+	serveOne(l, f)
+	if !c2.VerifC04Registered(l, devA()) || !c2.VerifC04Registered(l, devQ()) {
+		return "setup:the forwarded hello did not register"
+	}
+	return ""
+}
 
 func serveOne(l *c2.Listener, in []byte) *c2.VerifC04Conn {
 	c := &c2.VerifC04Conn{In: bytes.NewReader(in)}
@@ -170,6 +199,11 @@ func serveOne(l *c2.Listener, in []byte) *c2.VerifC04Conn {
 // decodeHandle drives the real connection handler.
 func decodeHandle(kind string, p *profile, in []byte) ([]uint64, string, error) {
 	l := c2.VerifC04Listener(serverKeys, &c2.VerifC04Mux{}, p.w, p.t)
+	if kind == "hf" {
+		if e := registerForwarded(l, p); e != "" {
+			return nil, e, nil
+		}
+	}
 	if kind == "hr" {
 		h, err := c2.VerifC04Encode(p.w, p.t, c2.VerifC04Hello(devA(), false))
 		if err != nil {
@@ -224,7 +258,7 @@ func jsonCheck(s *c2.Session) (r string) {
 
 func decodeMore(dec string, in []byte) ([]uint64, string, error) {
 	switch {
-	case strings.HasPrefix(dec, "hs:"), strings.HasPrefix(dec, "hr:"):
+	case strings.HasPrefix(dec, "hs:"), strings.HasPrefix(dec, "hr:"), strings.HasPrefix(dec, "hf:"):
 		p := profileByName(dec[3:])
 		if p == nil {
 			return nil, "", fmt.Errorf("unknown profile %s", dec)
@@ -245,18 +279,29 @@ func decodeMore(dec string, in []byte) ([]uint64, string, error) {
 		}
 		lastTerm = "CJson " + sessTerm(c2.VerifC04JSONLeaves(s)) + " " + vh.Bytes(b)
 		return []uint64{uint64(len(b))}, extra, nil
-	case dec == "recvseq":
+	case dec == "recvseq", dec == "recvseqf":
 		// the input is a sequence of stream-form Packets; each is handed to receive(s, l, &p) on the
-		// ONE Session of device A (Session.frags is carried along), until the first error
+		// ONE Session of the device (Session.frags is carried along), until the first error.
+		// recvseq: device A, registered directly (Listener.talk); recvseqf: device Q, registered
+		// through the forwarded path (its hello inside a container of A: Listener.talkSub)
 		l := c2.VerifC04Listener(serverKeys, &c2.VerifC04Mux{}, nil, nil)
-		h, err := c2.VerifC04Encode(nil, nil, c2.VerifC04Hello(devA(), false))
-		if err != nil {
-			return nil, "setup:cannot encode the hello: " + err.Error(), nil
+		who := devA()
+		if dec == "recvseqf" {
+			who = devQ()
+			if e := registerForwarded(l, profileByName("none")); e != "" {
+				return nil, e, nil
+			}
+		} else {
+			h, err := c2.VerifC04Encode(nil, nil, c2.VerifC04Hello(devA(), false))
+			if err != nil {
+				return nil, "setup:cannot encode the hello: " + err.Error(), nil
+			}
+			serveOne(l, h)
+			if !c2.VerifC04Registered(l, devA()) {
+				return nil, "setup:the valid hello did not register", nil
+			}
 		}
-		serveOne(l, h)
-		if !c2.VerifC04Registered(l, devA()) {
-			return nil, "setup:the valid hello did not register", nil
-		}
+		var err error
 		// every Packet is decoded from its OWN buffer of exactly its size, as Packets of separate
 		// connections are: a sub-packet is a window into its container's buffer (Chunk.Bytes
 		// reslices) and a completed fragment group is appended in place behind its head
@@ -276,7 +321,7 @@ func decodeMore(dec string, in []byte) ([]uint64, string, error) {
 			if err := p.UnmarshalStream(data.NewChunk(own)); err != nil {
 				return nil, "", err
 			}
-			k, err = c2.VerifC04ReceiveFrags(l, devA(), p)
+			k, err = c2.VerifC04ReceiveFrags(l, who, p)
 			if !bytes.Equal(own, keep) {
 				lastTerm = "ALIAS"
 			}
@@ -286,7 +331,7 @@ func decodeMore(dec string, in []byte) ([]uint64, string, error) {
 			c2.VerifC04Pump(l)
 		}
 		return []uint64{uint64(k)}, "", nil
-	case strings.HasPrefix(dec, "hq:"):
+	case strings.HasPrefix(dec, "hq:"), strings.HasPrefix(dec, "hg:"):
 		// a sequence of connections to one Listener after a valid registration of device A:
 		// the input is [u16 length][wire bytes] repeated, every piece is one connection
 		p := profileByName(dec[3:])
@@ -294,13 +339,19 @@ func decodeMore(dec string, in []byte) ([]uint64, string, error) {
 			return nil, "", fmt.Errorf("unknown profile %s", dec)
 		}
 		l := c2.VerifC04Listener(serverKeys, &c2.VerifC04Mux{}, p.w, p.t)
-		h, err := c2.VerifC04Encode(p.w, p.t, c2.VerifC04Hello(devA(), false))
-		if err != nil {
-			return nil, "setup:cannot encode the hello: " + err.Error(), nil
-		}
-		serveOne(l, h)
-		if !c2.VerifC04Registered(l, devA()) {
-			return nil, "setup:the valid hello did not register", nil
+		if dec[1] == 'g' {
+			if e := registerForwarded(l, p); e != "" {
+				return nil, e, nil
+			}
+		} else {
+			h, err := c2.VerifC04Encode(p.w, p.t, c2.VerifC04Hello(devA(), false))
+			if err != nil {
+				return nil, "setup:cannot encode the hello: " + err.Error(), nil
+			}
+			serveOne(l, h)
+			if !c2.VerifC04Registered(l, devA()) {
+				return nil, "setup:the valid hello did not register", nil
+			}
 		}
 		n := 0
 		for i := 0; i+2 <= len(in); {
@@ -548,6 +599,13 @@ func wide8(m []byte, from int) [][]byte {
 	return r
 }
 
+// toQ rewrites plaintext Packets of device A into the same Packets of device Q (the device that
+// is registered through the forwarded path).
+func toQ(b []byte) []byte {
+	a, q := devA(), devQ()
+	return bytes.ReplaceAll(b, a[:], q[:])
+}
+
 func runHandle(kind string, p *profile, in []byte, class string) {
 	run(kind+":"+p.name, in, class)
 }
@@ -564,6 +622,24 @@ func generateMore(corpus bool) {
 		// spin in talkSub -> readDeviceInfo -> io.ReadFull over a never-written Chunk
 		runHandle("hr", none, plainBytes(pk["multidev-empty-hello"]()), "corpus")
 		runHandle("hs", none, plainBytes(pk["empty-hello"]()), "corpus")
+		// "the transform / wrapper succeeds and delivers nothing": Unmarshal over a never-written Chunk
+		// used to spin (Chunk.Read answered (0, nil) for ever; fix 3f5a248).  Twelve zero bytes are an
+		// empty DNS packet; rewrap(p, nil) is the valid wrapping of an empty plaintext
+		for _, p := range profiles {
+			for _, kind := range []string{"hs", "hr"} {
+				runHandle(kind, p, rewrap(p, nil), "corpus-empty")
+				runHandle(kind, p, nil, "corpus-empty")
+				if strings.Contains(p.name, "dns") {
+					runHandle(kind, p, make([]byte, 12), "corpus-empty")
+					runHandle(kind, p, make([]byte, 24), "corpus-empty")
+					runHandle(kind, p, append(make([]byte, 11), 1, 192, 12, 0, 10, 0, 1, 0, 0, 0, 0, 0, 0), "corpus-empty") // one empty record
+				}
+				if strings.Contains(p.name, "b64") {
+					runHandle(kind, p, []byte("===="), "corpus-empty")
+					runHandle(kind, p, []byte("\n"), "corpus-empty")
+				}
+			}
+		}
 		// a decompression bomb: 8 MiB of zeros as the body of a hello, through the zlib wrapper
 		for _, pn := range []string{"zlib", "gzip"} {
 			p := profileByName(pn)
@@ -590,6 +666,10 @@ func generateMore(corpus bool) {
 			}
 			wire := rewrap(p, plain)
 			runHandle(kind, p, wire, "valid")
+			if kind == "hr" {
+				// the same Packet from Q, the device registered through A's container (talkSub)
+				runHandle("hf", p, rewrap(p, toQ(plain)), "valid")
+			}
 			if kind == "hr" {
 				runHandle("hs", p, wire, "valid") // the same packet from an unregistered device
 			}
@@ -684,6 +764,9 @@ func generateMore(corpus bool) {
 					w := plainBytes(n)
 					runHandle("hs", none, w, "flags")
 					runHandle("hr", none, w, "flags")
+					if thorough || len(body) == 0 || id == 0xC0 {
+						runHandle("hf", none, toQ(w), "flags")
+					}
 				}
 			}
 		}
@@ -779,6 +862,9 @@ func generateMore(corpus bool) {
 					}
 					w := rewrap(p, append([]byte{}, b.Bytes()...))
 					runHandle(kind, p, w, "tags")
+					if kind == "hr" {
+						runHandle("hf", p, rewrap(p, toQ(b.Bytes())), "tags")
+					}
 					if kind == "hr" {
 						runHandle("hs", p, w, "tags")
 					}
@@ -999,6 +1085,10 @@ func generateMore(corpus bool) {
 			run("recv", payload(&tc), class)
 			run("hq:none", payload(&conns), class)
 			runHandle("hr", none, plainBytes(top), class)
+			// the same for Q, whose Session was made by Listener.talkSub
+			run("recvseqf", toQ(payload(&stream)), class)
+			run("hg:none", toQ(payload(&conns)), class)
+			runHandle("hf", none, toQ(plainBytes(top)), class)
 			if i%7 == 0 {
 				p := profiles[1+(i/7)%12]
 				var pc data.Chunk
@@ -1008,6 +1098,15 @@ func generateMore(corpus bool) {
 					pc.Write(w)
 				}
 				run("hq:"+p.name, payload(&pc), class)
+				var qc data.Chunk
+				for _, f := range q {
+					v := mk(f)
+					v.Device = devQ()
+					w := encode(p, v)
+					qc.WriteUint16(uint16(len(w)))
+					qc.Write(w)
+				}
+				run("hg:"+p.name, payload(&qc), class)
 			}
 		}
 	}
